@@ -66,3 +66,22 @@ Theorem C10_replay_in_append_order_refuted :
   dir_order 11 = [0; 1; 10; 2; 3; 4; 5; 6; 7; 8; 9]%nat /\ dir_order 11 <> seq 0 11.
 Proof. exact wal_dir_order_refuted. Qed.
 Print Assumptions C10_replay_in_append_order_refuted.
+
+(* ---- Wal.Write: the metrics meta-entry log is REWRITTEN (one block replaces the file) about once a
+   second.  FULL STATEMENT: after a crash that follows ANY number k of the system calls of ANY sequence of
+   Writes on a fresh log, restart reads exactly the block of the last COMPLETED Write and ends cleanly.
+   It holds for the protocol of the fixed code (write <file>.tmp, fsync, rename: [write_atomic]) and is
+   refuted for the protocol before the fix (truncate + four writes in place: [write_inplace]) — a crash
+   in the window loses the block of the previous, completed Write. ---- *)
+From SigM Require Import WalRewrite.
+From SigP Require Import WalRewriteProofs.
+Theorem C10_rewrite_crash_keeps_last_completed : forall ps k, Forall small ps ->
+  recovered (wrun fs_new (firstn k (writes write_atomic ps)))
+  = (expected_blocks (last_completed alen ps k None), CleanEOF).
+Proof. exact rewrite_atomic_from_new. Qed.
+Print Assumptions C10_rewrite_crash_keeps_last_completed.
+Theorem C10_rewrite_inplace_refuted :
+  recovered (wrun fs_new (firstn 5 (writes write_inplace [[65]; [66]]))) = ([[65]], CleanEOF) /\
+  fst (recovered (wrun fs_new (firstn 6 (writes write_inplace [[65]; [66]])))) = [].
+Proof. exact rewrite_inplace_refuted_blocks. Qed.
+Print Assumptions C10_rewrite_inplace_refuted.
